@@ -44,6 +44,8 @@ pub struct Host {
     pub mutate_counter: u64,
     pub last_mutate: Option<u64>,
     pub inside_added: Vec<usize>,
+    /// handle_syscalls() called from inside a hook was (wrongly) accepted
+    pub inside_builtin: bool,
 }
 
 /// What hooks (and the host) can see of the machine, minus the places only hooks write to.
@@ -184,6 +186,15 @@ fn install_dispatch(host: &Rc<RefCell<Host>>) {
                     }
                 }
             }
+            "RS" => {
+                // the built-in handlers are hooks too: registering them from inside a hook must be refused
+                let r = ax.handle_syscalls(vec![Syscall::Exit]);
+                let ok = r.is_ok();
+                if ok {
+                    h.inside_builtin = true;
+                }
+                ev.reg_inside = Some(ok);
+            }
             _ => {}
         }
         h.log.push(ev);
@@ -267,6 +278,7 @@ fn build(sc: &Sc, rng_seed: u64, set_limit: bool) -> Result<Machine, String> {
         mutate_counter: 0,
         last_mutate: None,
         inside_added: Vec::new(),
+        inside_builtin: false,
     }));
     let mut m = Machine {
         code_end: if sc.symbols.is_empty() { sc.code_start + code.len() as u64 } else { 0 },
@@ -586,6 +598,10 @@ fn drive_step(sc: &Sc, rng_seed: u64, ctx: &mut Ctx, oracles: bool, record_diges
             m.model_inv.push(0);
             m.reg.before.entry("Nop".into()).or_default().push(HookId::Ours(id));
         }
+        if m.host.borrow().inside_builtin && !m.builtin_registered {
+            m.builtin_registered = true;
+            m.reg.before.entry("Syscall".into()).or_default().push(HookId::BuiltinExit);
+        }
         let out_class = match &out {
             StepOut::Ok(true) => "ok",
             StepOut::Ok(false) => "ok_finished",
@@ -599,7 +615,7 @@ fn drive_step(sc: &Sc, rng_seed: u64, ctx: &mut Ctx, oracles: bool, record_diges
                 "E" => ctx.fault("hook_err"),
                 "S" => ctx.fault("hook_stop"),
                 "H" => ctx.fault("hook_handled"),
-                "R" => ctx.fault("hook_reentrant_register"),
+                "R" | "RS" => ctx.fault("hook_reentrant_register"),
                 "M" => ctx.fault("hook_mutate"),
                 _ => {}
             }
